@@ -93,6 +93,7 @@ PROPS["C18"] = {"units": [
     rapid_unit("bridge", "bridge", "^TestC18Bridge$", 1500, 16 * 15000),
     rapid_unit("dpipe", "bridge", "^TestC18Dpipe$", 5000, 16 * 100000),
     rapid_unit("dpipe-full", "bridge", "^TestC18DpipeFull$", 300, 16 * 3000, shrinktime="2s"),
+    rapid_unit("dpipe-interrupt", "bridge", "^TestC18DpipeInterrupt$", 600, 16 * 8000, shrinktime="3s"),
     rapid_unit("bridge-concurrent", "bridge", "^TestC18BridgeConcurrent$", 200, 16 * 2000, shrinktime="3s"),
     rapid_unit("bridge-tick-vs-reorder", "bridge", "^TestC18BridgeTickVsReorder$", 200, 16 * 2000, shrinktime="3s"),
 ]}
